@@ -394,16 +394,20 @@ def extend_summary(ctx, a, paths, cmd, opts, d, cond, o_before_snapshot, faulty)
             p = a.path(dn, rel)
             missing = not os.path.lexists(p)
             sel = selected_full(opts, dn, rel, missing, kind, ent, st)
-            # a block range limits the files that are examined (empty files, links and directories are always examined)
+            finished = True
+            # a block range limits the files that are examined (empty files, links and directories are always examined);
+            # a file whose last block is outside the range does not reach FILE_IS_FINISHED
             if sel and kind == 'file' and ent['blocks'] and ('-S' in opts or '-B' in opts):
                 s0 = int(opts[opts.index('-S') + 1]) if '-S' in opts else 0
                 cnt = int(opts[opts.index('-B') + 1]) if '-B' in opts else 0
                 hi = s0 + cnt if cnt else 10 ** 9
                 sel = any(s0 <= pos < hi for _, pos, _ in ent['blocks'])
+                finished = s0 <= ent['blocks'][-1][1] < hi
             syncedonly = '-e' in opts or '-b' in opts
             state = 'good'
             k = 'file'
             larger = False
+            unsynced = False
             if kind == 'file':
                 k = 'empty' if ent['size'] == 0 else 'file'
                 if missing or os.path.islink(p) or not os.path.isfile(p):
@@ -414,9 +418,7 @@ def extend_summary(ctx, a, paths, cmd, opts, d, cond, o_before_snapshot, faulty)
                     v = a.find_version(dn, ent)
                     larger = s.st_size > ent['size']
                     unsynced = s.st_size != ent['size'] or s.st_mtime_ns // 10**9 != ent['sec'] or s.st_mtime_ns % 10**9 != ent['nsec']
-                    if syncedonly and unsynced:
-                        state = 'good'; larger = False          # check.c:1346-1349: left alone
-                    elif k == 'empty':
+                    if k == 'empty':
                         state = 'good' if s.st_size == 0 else 'rec'
                     elif v is None or data[:ent['size']] != v or s.st_size < ent['size']:
                         state = 'rec'
@@ -437,7 +439,7 @@ def extend_summary(ctx, a, paths, cmd, opts, d, cond, o_before_snapshot, faulty)
                     if not os.path.isdir(a.path(dn, ap)):
                         anc.append(paths.pid(di, ap))
             it = {'disk': di, 'path': paths.pid(di, rel), 'kind': k, 'selected': sel, 'missing': missing, 'larger': larger,
-                  'unrec': os.path.lexists(p + '.unrecoverable'), 'state': state, 'anc': anc}
+                  'unrec': os.path.lexists(p + '.unrecoverable'), 'state': state, 'anc': anc, 'unsynced': unsynced, 'finished': finished}
             if sel and (state != 'good' or larger):
                 anyd = True
             items.append(it)
